@@ -37,7 +37,7 @@ PROPS = {
             "resolution for nested expressions."),
         'assumptions': TRUSTED_STRUCT + TRUSTED_ABSINT[3:],
         'quick': [evalnodes.rule_nullstrict, evalnodes.rule_divguard, evalnodes.rule_promote, evalnodes.rule_opsem,
-                  evalnodes.rule_3vl, sx.rule_rowloop, executor.rule_fromand, sxk.rule_implicitcast],
+                  evalnodes.rule_3vl, sx.rule_rowloop, sxk.rule_fromand, sxk.rule_implicitcast],
         'thorough': [],
     },
     'C02': {
@@ -91,7 +91,7 @@ PROPS = {
             "does not decide values of dtype `object` nor conformance of ledger data to beancount's annotations. Also: the overload-resolution primitives of types.py (Any equals every class and not the `*` pseudo-type, the strict linearisation, first overload along it) behave as the registry model assumes (R-LOOKUP, 13 cases on terms), and every output column of both scan branches holds the value of its own target (R-ROWLOOP, R-AGGPROTO key layout)."),
         'assumptions': TRUSTED_ABSINT,
         'quick': [dtype.rule_dtype, dtype.rule_typesafe, dtype.rule_renderable, cr.rule_opresolve, sxk.rule_coalesce,
-                  sxk.rule_implicitcast, sxty.rule_lookup, sxs.rule_aggproto, sx.rule_rowloop],
+                  sxk.rule_implicitcast, sxty.rule_lookup, sxs.rule_aggproto, sx.rule_rowloop, tb.rule_tablefields],
         'thorough': [dtype.rule_admitted],
     },
     'C05': {
@@ -133,7 +133,7 @@ PROPS = {
         'assumptions': ["TatSu's code generator (5.7.x, the version range pyproject.toml pins) is deterministic and "
                         "faithful to its input grammar", "no BQL text is parsed by the check"],
         'technique': 'translation validation (regenerate and compare syntax trees) + grammar-model analysis',
-        'quick': [gr.rule_regen, gr.rule_precmatrix, gr.rule_astfields, gr.rule_semantics, gr.rule_shadow, gr.rule_keywords, gr.rule_lexlang, st.rule_parsefresh],
+        'quick': [gr.rule_regen, gr.rule_precmatrix, gr.rule_astfields, gr.rule_semantics, gr.rule_shadow, gr.rule_keywords, gr.rule_lexlang, gr.rule_fieldonce, st.rule_parsefresh],
         'thorough': [gr.rule_lexspec],
     },
     'C07': {
@@ -163,7 +163,7 @@ PROPS = {
             "equality of nested and materialised results in general. IN / NOT IN hand the compiled operands on unmodified, wrap a one-column subquery as a constant list and reject wider ones (R-INOP)."),
         'assumptions': TRUSTED_STRUCT,
         'quick': [sxst.rule_reentrant, cr.rule_visfilter, eqfaith.rule_eqfaith, sxg.rule_guards, evalnodes.rule_nullstrict,
-                  sx.rule_subq1d, sxk.rule_inop],
+                  sx.rule_subq1d, sxk.rule_inop, cr.rule_wildcard],
         'thorough': [],
     },
     'C09': {
@@ -197,7 +197,7 @@ PROPS = {
             "required methods (R-MODCONST), every Connection.execute() returns a fresh cursor bound to the connection "
             "(R-FRESHCURSOR) and the exception tree (R-EXCTREE). Does not decide Python's slice arithmetic."),
         'assumptions': TRUSTED_STRUCT,
-        'quick': [sxc.rule_fetchsib, sxc.rule_reset, sxc.rule_rowcount, cu.rule_column7, cu.rule_modconst, sxc.rule_freshcursor, cr.rule_exctree],
+        'quick': [sxc.rule_fetchsib, sxc.rule_reset, sxc.rule_rowcount, sxc.rule_column7, cu.rule_modconst, sxc.rule_freshcursor, cr.rule_exctree],
         'thorough': [],
     },
     'C12': {
@@ -231,12 +231,11 @@ PROPS = {
     'C18': {
         'level': 'other',
         'explanation': (
-            "Decides five clauses: (1) type casts (bool, int, decimal, str, date; 16 overloads) return the "
+            "Decides six clauses: (1) type casts (bool, int, decimal, str, date; 16 overloads) return the "
             "converted value or NULL and never raise - abstract interpretation of each cast body for every operand type "
             "it admits (untyped operands range over all announceable dtypes), with edge samples (NaN, Infinity, huge "
             "ints, malformed strings) for the conversion primitives; every exception a primitive can raise must be "
-            "caught by the enclosing try (R-CASTTOTAL); (2) sibling agreement of the calendar cuts: date_trunc, date_part "
-            "and quarter() use the same (attribute, offset, period) for each unit (R-CALSIB); (3) the 26 functions that "
+            "caught by the enclosing try (R-CASTTOTAL); (2) [sibling agreement of the calendar cuts is now a consequence of clause 5]; (3) the 26 functions that "
             "the statement defines by a Python primitive (upper, substr, splitcomp, date_diff, root, ...) return, on every "
             "path of their body (helpers inlined), the term of that primitive applied to their arguments in order "
             "(R-DEFN, term interpretation); (4) date_bin returns the start of the bin containing the source: for month / "
@@ -248,10 +247,12 @@ PROPS = {
             "every unit: the integer arithmetic over year / month is normalised exactly (atoms year, month, "
             "floor((field - a)/p)) and compared with the first day / the number of the unit that starts at fields "
             "congruent to a modulo p (decade 0/10, century 1/100, millennium 1/1000, quarter 1/3) - so an off-by-one applied "
-            "consistently to all siblings is rejected as well (R-TRUNCLAW, 14 unit cases). NOT decided (equalities over run-time values, outside static reach): the "
+            "consistently to all siblings is rejected as well (R-TRUNCLAW, 14 unit cases); (6) date(<string>) converts through "
+            "strptime('%Y-%m-%d') and nothing else, date(y, m, d) is datetime.date(y, m, d), and possign / account_sortkey "
+            "classify accounts with the account types of this very ledger (R-CASTDEF). NOT decided (equalities over run-time values, outside static reach): the "
             "inverse pairs (date_add / date_diff), ISO week numbers, regex results, decimal arithmetic."),
         'assumptions': TRUSTED_ABSINT[:1],
-        'quick': [lib.rule_casttotal, lib.rule_calsib, sxl.rule_defn, sxdb.rule_binfloor, sxdb.rule_trunclaw],
+        'quick': [lib.rule_casttotal, sxl.rule_defn, sxdb.rule_binfloor, sxdb.rule_trunclaw, sxl.rule_castdef],
         'thorough': [],
     },
     'C20': {
@@ -306,8 +307,8 @@ PROPS = {
             "decided: balance preservation, carried-forward Equity postings, balancing of returned transactions - "
             "properties of beancount.ops.summarize over ledger values. Compiler state is restored around every nested SELECT for every kind of FROM clause and on exceptional exits (R-REENTRANT); PRINT takes its directives from iterating the table, which is what applies the clauses (R-PRINTFILTER); the 33 combinations of FROM expression / OPEN / CLOSE / date order in _compile_from accept or reject as stated and update the table with exactly the clause values (R-FROMCLAUSE)."),
         'assumptions': TRUSTED_STRUCT,
-        'quick': [cl.rule_callorder, executor.rule_fromand, sxk.rule_fromclause, sxg.rule_guards, cr.rule_guard_typesafe, sxst.rule_tablecopy,
-                  cl.rule_defaultclose, sxst.rule_reentrant, sx.rule_printfilter],
+        'quick': [cl.rule_callorder, sxk.rule_fromand, sxk.rule_fromclause, sxg.rule_guards, cr.rule_guard_typesafe, sxst.rule_tablecopy,
+                  sxst.rule_defaultclose, sxst.rule_reentrant, sx.rule_printfilter, gr.rule_fieldonce],
         'thorough': [],
     },
     'C14': {
@@ -352,7 +353,7 @@ PROPS = {
             "(R-EXHAUSTIVE). Does not decide byte equality of shell output with the renderer (the same function is "
             "called), pager behaviour or history. _parse_format returns the very value whose membership in FORMATS it tested; parse() builds a new tree per call (R-PARSEFRESH): the shell writes the default CLOSE date into the tree it parsed."),
         'assumptions': TRUSTED_STRUCT,
-        'quick': [cl.rule_settings, cl.rule_optused, cl.rule_dispatch, cl.rule_defaultclose, cr.rule_exhaustive, st.rule_parsefresh],
+        'quick': [cl.rule_settings, cl.rule_optused, cl.rule_dispatch, sxst.rule_defaultclose, cr.rule_exhaustive, st.rule_parsefresh],
         'thorough': [],
     },
 }
